@@ -246,12 +246,23 @@ func pinStart() pinner { return pinner{stat.CpuUsage(), time.Now()} }
 
 func (pn pinner) end(th int64, p *pre) {
 	v1 := stat.CpuUsage()
-	quick := time.Since(pn.w0) < 200*time.Millisecond
+	quick := time.Since(pn.w0) < 50*time.Millisecond
 	p.Cpu = v1
 	if quick && (pn.v0 >= th) == (v1 >= th) {
 		p.OverKnown, p.Over = true, v1 >= th
 	}
 	if f0, f1 := factor(th, pn.v0), factor(th, v1); quick && f0 == f1 {
 		p.Pinned, p.Factor = true, f0
+	}
+	// stat.CpuUsage() is a moving average of samples in [0,1000] millicpu: thresholds outside that
+	// range fix the verdict, and a threshold <= -9000 fixes the factor at its lower bound
+	switch {
+	case th < 0:
+		p.OverKnown, p.Over = true, true
+		if factor(th, 0) == lowBound {
+			p.Pinned, p.Factor = true, lowBound
+		}
+	case th > 1000:
+		p.OverKnown, p.Over = true, false
 	}
 }
